@@ -8,6 +8,9 @@ Driver of the `spin` family.
   threads k spin|rspin      new scenario: a fresh lock and k threads (k ≤ 8), no programs yet
   prog t op…                program of thread t (ops: lock try_lock unlock); the thread runs up to its first access
   step t                    thread t performs its pending access and runs up to the next one
+  deep n                    RecursiveSpinlock, free running: one thread nests n deep, unlocks once / down to depth 1 / completely;
+                            after each phase another thread calls try_lock(): `ok try1=… count1=… try2=… count2=… try3=… flag=… count3=…`
+  xd dev|graph thr new a | set a | del a | get   (harness h_spin_dev) the default slot of Device / Graph used from thread thr (0..3)
   graph                     (model only) the reachable state graph of the current scenario: `ok n=<states> | i t j;…`
                             (state i --step t--> state j; state 0 = the current state; only threads that are not done)
   ident new a | ident del a | ident get id
@@ -30,8 +33,10 @@ structure St where
   scn : Scn
   ident : Ident.St
   dflt : Default.St
+  xdev : Default.St     -- the default slot of Device (one slot, whichever thread issues the command)
+  xgraph : Default.St   -- the default slot of Graph
 
-def init : St := ⟨.none, Ident.init, Default.init⟩
+def init : St := ⟨.none, Ident.init, Default.init, Default.init, Default.init⟩
 
 def parseOp : String → Option Op
   | "lock" => some .lock
@@ -87,6 +92,35 @@ def spinKey (k : Nat) (s : Spin.Sys) : String :=
 def rspinKey (k : Nat) (s : RSpin.Sys) : String :=
   toString (repr (s.sh, (List.range k).map s.thr))
 
+/-- thread `t` runs alone until its program is finished (or the fuel runs out);
+returns the value returned by its last completed call -/
+def runAlone (t : Nat) : Nat → RSpin.Shared → RSpin.Thread → String → RSpin.Shared × RSpin.Thread × String
+  | 0, sh, th, r => (sh, th, r)
+  | f + 1, sh, th, r =>
+    if th.pc = .done then (sh, th, r)
+    else
+      let x := RSpin.trans t sh th
+      runAlone t f x.1 x.2.1 (if x.2.2.ret = "-" then r else x.2.2.ret)
+
+/-- `deep n`: thread 0 nests n deep and unlocks once / down to depth 1 / completely;
+after each phase thread 1 calls try_lock() (and unlocks again if it got the lock). -/
+def deep (n : Nat) : String :=
+  let call (t : Nat) (sh : RSpin.Shared) (hold : Nat) (ops : List Op) :=
+    let th : RSpin.Thread := { RSpin.start ops with hold := hold }
+    runAlone t (4 * ops.length + 4) sh th "-"
+  let tryB (sh : RSpin.Shared) :=
+    let r := call 1 sh 0 [.tryLock]
+    if r.2.2 = "true" then ((call 1 r.1 r.2.1.hold [.unlock]).1, r.2.2) else (r.1, r.2.2)
+  let a1 := call 0 ⟨false, none, 0⟩ 0 (List.replicate n Op.lock ++ [.unlock])
+  let b1 := tryB a1.1
+  let c1 := a1.1.count
+  let a2 := call 0 b1.1 a1.2.1.hold (List.replicate (n - 2) Op.unlock)
+  let b2 := tryB a2.1
+  let c2 := a2.1.count
+  let a3 := call 0 b2.1 a2.2.1.hold [.unlock]
+  let b3 := tryB a3.1
+  s!"ok try1={b1.2} count1={c1} try2={b2.2} count2={c2} try3={b3.2} flag={if b3.1.flag then 1 else 0} count3={b3.1.count}"
+
 def maxThreads : Nat := 8
 def maxAddr : Nat := 64
 
@@ -132,11 +166,34 @@ def step (st : St) (line : String) : St × String :=
         else (st, "bad-op")
       | .none => (st, "bad-op")
     | none => (st, "bad-op")
+  | ["deep", n] =>
+    match n.toNat? with
+    | some n => if n < 2 ∨ n > 1000000 then (st, "bad-op") else (st, deep n)
+    | none => (st, "bad-op")
   | ["graph"] =>
     match st.scn with
     | .spin k s _ => (st, explore k (fun s t => (Spin.step s t).1) (spinKey k) (fun s t => (s.thr t).pc != .done) s)
     | .rspin k s _ => (st, explore k (fun s t => (RSpin.step s t).1) (rspinKey k) (fun s t => (s.thr t).pc != .done) s)
     | .none => (st, "bad-op")
+  | "xd" :: kind :: t :: rest =>
+    let cmd : Option Default.Cmd :=
+      match rest with
+      | ["get"] => some .get
+      | [op, x] =>
+        match x.toNat? with
+        | some x =>
+          if x < 16 then
+            (if op = "new" then some (.new x) else if op = "set" then some (.set x) else if op = "del" then some (.del x) else none)
+          else none
+        | none => none
+      | _ => none
+    match t.toNat?, cmd with
+    | some t, some c =>
+      if t ≥ 4 then (st, "bad-op")
+      else if kind = "dev" then let r := Default.exec st.xdev c; ({ st with xdev := r.1 }, r.2)
+      else if kind = "graph" then let r := Default.exec st.xgraph c; ({ st with xgraph := r.1 }, r.2)
+      else (st, "bad-op")
+    | _, _ => (st, "bad-op")
   | ["ident", op, x] =>
     match x.toNat? with
     | some x =>
